@@ -12,7 +12,7 @@
    integer casts.  Anything else is translated to [EUnsupported]/[SUnsupported], which evaluate to [Fault], so a
    theorem about a function that leaves the fragment can no longer be proved. *)
 From Coq Require Import NArith List String Bool Arith.
-From HW Require Import Word.
+From HW Require Import Word X86 Wasm.
 Import ListNotations.
 Local Open Scope N_scope.
 
@@ -44,7 +44,14 @@ Inductive expr :=
 | EIdxE (a : string) (i : expr)            (* a[i], i a computed usize *)
 | EFromLe (a : string) (n : nat)           (* uN::from_le_bytes([a[0], a[1], .., a[n-1]]) *)
 | EMin (a b : expr)                        (* a.min(b) *)
+| ERem (a b : expr)                        (* a % b  (panics when b = 0) *)
+| EVPrim (f : string) (vs : list string)   (* a scalar-valued SIMD primitive applied to vector variables (extract_lane) *)
 | EUnsupported (s : string).
+
+(* 128-bit vector expressions: a variable / field, or a SIMD primitive applied to vectors and to scalar atoms.  Calls of
+   functions of the file (wrapper methods, operators, helpers) are statements; the translator names their results. *)
+Inductive sarg := SALit (n : N) | SAVar (x : string).
+Inductive vexpr := XV (x : string) | XPrim (f : string) (vs : list vexpr) (ss : list sarg).
 
 Inductive place := PVar (x : string) | PIdx (a : string) (i : idx) | PIdxE (a : string) (i : expr).
 Inductive cond :=
@@ -52,8 +59,13 @@ Inductive cond :=
 | CLenGt (a b : string)                    (* a.len() > b.len() *)
 | CLe (a b : expr)
 | CIsEmpty (a : string)                    (* a.is_empty() *)
+| CLenGe (a : string) (k : nat)            (* a.len() >= k, k a literal *)
+| CLenGtK (a : string) (k : nat)           (* a.len() > k, k a literal *)
 | CNot (c : cond).
-Inductive arg := AVal (e : expr) | AArr (a : string) | AK (i : idx).
+Inductive arg := AVal (e : expr) | AArr (a : string) | AK (i : idx)
+| AVec (e : vexpr)              (* a vector by value *)
+| AVecRef (x : string)          (* &mut <vector variable or field>: copied back after the call *)
+| ATupV (x : string).           (* a tuple of vectors held in a variable *)
 
 Inductive stmt :=
 | SLet (x : string) (e : expr)
@@ -88,19 +100,26 @@ Inductive stmt :=
       (* let mut chunks = d.chunks_exact(n); for x in chunks.by_ref() { body } *)
 | SLetChunksRem (x : string) (d : string) (n : nat)     (* x = chunks.remainder() of d.chunks_exact(n) *)
 | SIfSome (o : string) (x : string) (body : list stmt)  (* if let Some(x) = o { body } *)
+| SLetV (x : string) (e : vexpr)                        (* x = <vector expression>  (let, assignment, self.0 = ..) *)
+| SLetTupV (x : string) (es : list vexpr)               (* x = (v1, v2, ..) *)
+| SUntupV (xs : list string) (src : string)             (* let (a, b) = src / a tuple pattern parameter *)
+| SIfPrefix (x : string) (a : string) (n : nat) (body : list stmt)   (* if let Some(x) = a.get(..n) { body } *)
 | SUnsupported (s : string).
 
 Inductive ret := RNone | RVal (e : expr) | RArr (es : list expr) | RTuple (es : list expr) | RVarArr (x : string)
 | RVar (x : string)                        (* whatever value the variable holds (Option results) *)
 | RCond (c : cond)                         (* a bool, as 1 / 0 *)
-| RPrefixOr (a : string) (n : expr).       (* a.get(..n).unwrap_or(&a) *)
-Inductive pkind := KVal | KArr | KIdx.
+| RPrefixOr (a : string) (n : expr)        (* a.get(..n).unwrap_or(&a) *)
+| RVec (e : vexpr).                        (* a vector *)
+Inductive pkind := KVal | KArr | KIdx | KVec | KTupV.
 Record fndef := { f_params : list (string * pkind); f_body : list stmt; f_ret : ret }.
 
 Inductive val :=
 | VN (n : N) | VA (l : list N) | VK (k : nat) | VT (l : list N)
 | VV (a : string) (off len : nat)          (* a mutable view  &mut a[off .. off+len]  of an array variable *)
-| VO (o : option (list N)).                (* Option<&[u8]> *)
+| VO (o : option (list N))                 (* Option<&[u8]> *)
+| VX (v : V128)                            (* a 128-bit vector *)
+| VTV (l : list V128).                     (* a tuple of vectors *)
 Definition env := list (string * val).
 
 Fixpoint lookup (e : env) (x : string) : option val :=
@@ -151,6 +170,63 @@ Definition sub_chk (p : profile) (t : ity) (a b : N) : res N :=
   if b <=? a then Ok (a - b) else if ovf p then Panic else Ok (N.land (a + (mask t + 1) - b) (mask t)).
 Definition rotl (t : ity) (a k : N) : N := N.lor (N.land (N.shiftl a k) (mask t)) (N.shiftr a (bits t - k)).
 
+Local Open Scope string_scope.
+(* SIMD primitives: the Wasm SIMD operations used by src/wasm.rs, by their path with const generic arguments; meanings from Wasm.v *)
+Definition vprim (f : string) (vs : list V128) (ss : list N) : option V128 :=
+  let is x := String.eqb f x in
+  match vs, ss with
+  | [a; b], [] =>
+      if is "wasm32::u64x2_add" then Some (u64x2_add a b) else if is "wasm32::u64x2_mul" then Some (u64x2_mul a b)
+      else if is "wasm32::u64x2_sub" then Some (v2map2 (fun x y => t64 (x + 18446744073709551616 - y)) a b)
+      else if is "wasm32::v128_and" then Some (v128_and a b) else if is "wasm32::v128_or" then Some (v128_or a b)
+      else if is "wasm32::v128_xor" then Some (v128_xor a b) else if is "wasm32::v128_andnot" then Some (v128_andnot a b)
+      else if is "wasm32::u8x16_shuffle::<3,12,2,5,1,14,0,15,11,4,10,13,6,9,7,8>"
+           then Some (u8x16_shuffle [3; 12; 2; 5; 1; 14; 0; 15; 11; 4; 10; 13; 6; 9; 7; 8]%nat a b)
+      else if is "wasm32::u32x4_shuffle::<1,0,3,2>" then Some (u32x4_shuffle 1 0 3 2 a b)
+      else if is "wasm32::u64x2_shuffle::<1,2>" then Some (u64x2_shuffle 1 2 a b)
+      else None
+  | [a], [k] =>
+      if is "wasm32::u64x2_shr" then Some (u64x2_shr a k) else if is "wasm32::u32x4_shl" then Some (u32x4_shl a k)
+      else if is "wasm32::u32x4_shr" then Some (u32x4_shr a k)
+      else if is "wasm32::i32x4_replace_lane::<1>" then Some (i32x4_replace_lane_1 a k)
+      else None
+  | [], [x; y] => if is "wasm32::u64x2" then Some (w_u64x2 x y) else None
+  | [], [a0; a1; a2; a3] => if is "wasm32::u32x4" then Some (w_u32x4 a0 a1 a2 a3)
+                            else if is "wasm32::i32x4" then Some (w_u32x4 a0 a1 a2 a3) else None
+  | _, _ => None
+  end.
+Definition sprim (f : string) (vs : list V128) : option N :=
+  match vs with
+  | [a] => if String.eqb f "wasm32::u64x2_extract_lane::<0>" then Some (u64x2_extract_lane 0 a)
+           else if String.eqb f "wasm32::u64x2_extract_lane::<1>" then Some (u64x2_extract_lane 1 a) else None
+  | _ => None
+  end.
+
+Local Close Scope string_scope.
+Definition eval_sarg (s : state) (a : sarg) : res N :=
+  match a with
+  | SALit n => Ok n
+  | SAVar x => match get s x with Some (VN n) => Ok n | _ => Fault end
+  end.
+Fixpoint eval_sargs (s : state) (l : list sarg) : res (list N) :=
+  match l with [] => Ok [] | a :: l' => do x <- eval_sarg s a ;; do xs <- eval_sargs s l' ;; Ok (x :: xs) end.
+Fixpoint evalv (s : state) (e : vexpr) : res V128 :=
+  match e with
+  | XV x => match get s x with Some (VX v) => Ok v | _ => Fault end
+  | XPrim f vs ss =>
+      do xs <- (fix go (l : list vexpr) : res (list V128) :=
+                  match l with [] => Ok [] | a :: l' => do v <- evalv s a ;; do r <- go l' ;; Ok (v :: r) end) vs ;;
+      do ns <- eval_sargs s ss ;;
+      match vprim f xs ns with Some v => Ok v | None => Fault end
+  end.
+Fixpoint evalv_list (s : state) (l : list vexpr) : res (list V128) :=
+  match l with [] => Ok [] | a :: l' => do v <- evalv s a ;; do r <- evalv_list s l' ;; Ok (v :: r) end.
+Fixpoint get_vecs (s : state) (l : list string) : res (list V128) :=
+  match l with
+  | [] => Ok []
+  | x :: l' => match get s x with Some (VX v) => do r <- get_vecs s l' ;; Ok (v :: r) | _ => Fault end
+  end.
+
 Fixpoint eval (p : profile) (s : state) (e : expr) : res N :=
   match e with
   | ELit n => Ok n
@@ -185,6 +261,8 @@ Fixpoint eval (p : profile) (s : state) (e : expr) : res N :=
       | _ => Fault
       end
   | EMin a b => do x <- eval p s a ;; do y <- eval p s b ;; Ok (N.min x y)
+  | ERem a b => do x <- eval p s a ;; do y <- eval p s b ;; if y =? 0 then Panic else Ok (x mod y)
+  | EVPrim f vs => do xs <- get_vecs s vs ;; match sprim f xs with Some n => Ok n | None => Fault end
   | EFromLe a n =>
       match get s a with
       | Some (VA l) => if (n <=? List.length l)%nat then Ok (le_bytes (firstn n l)) else Panic     (* a[k] out of bounds *)
@@ -228,6 +306,8 @@ Fixpoint eval_cond (p : profile) (s : state) (c : cond) : res bool :=
                   | _, _ => Fault
                   end
   | CIsEmpty a => match len_of s a with Some n => Ok (Nat.eqb n 0) | None => Fault end
+  | CLenGe a k => match len_of s a with Some n => Ok (k <=? n)%nat | None => Fault end
+  | CLenGtK a k => match len_of s a with Some n => Ok (k <? n)%nat | None => Fault end
   | CNot c' => do x <- eval_cond p s c' ;; Ok (negb x)
   end.
 
@@ -246,6 +326,9 @@ Definition eval_arg (p : profile) (s : state) (a : arg) : res val :=
   | AVal e => do x <- eval p s e ;; Ok (VN x)
   | AArr x => match get s x with Some (VA l) => Ok (VA l) | _ => Fault end
   | AK i => do k <- eval_idx s i ;; Ok (VK k)
+  | AVec e => do v <- evalv s e ;; Ok (VX v)
+  | AVecRef x => match get s x with Some (VX v) => Ok (VX v) | _ => Fault end
+  | ATupV x => match get s x with Some (VTV l) => Ok (VTV l) | _ => Fault end
   end.
 Fixpoint eval_args (p : profile) (s : state) (l : list arg) : res (list val) :=
   match l with [] => Ok [] | a :: l' => do v <- eval_arg p s a ;; do vs <- eval_args p s l' ;; Ok (v :: vs) end.
@@ -257,6 +340,8 @@ Fixpoint bind_params (ps : list (string * pkind)) (vs : list val) : res env :=
   | (x, KVal) :: ps', VN n :: vs' => do e <- bind_params ps' vs' ;; Ok ((x, VN n) :: e)
   | (x, KArr) :: ps', VA l :: vs' => do e <- bind_params ps' vs' ;; Ok ((x, VA l) :: e)
   | (x, KIdx) :: ps', VK k :: vs' => do e <- bind_params ps' vs' ;; Ok ((x, VK k) :: e)
+  | (x, KVec) :: ps', VX v :: vs' => do e <- bind_params ps' vs' ;; Ok ((x, VX v) :: e)
+  | (x, KTupV) :: ps', VTV l :: vs' => do e <- bind_params ps' vs' ;; Ok ((x, VTV l) :: e)
   | _, _ => Fault
   end.
 (* final values of the parameters, in order (arrays passed by reference are copied back to the caller) *)
@@ -305,6 +390,7 @@ Section Exec.
   Fixpoint copy_out (s : state) (args : list arg) (finals : list (option val)) : state :=
     match args, finals with
     | AArr a :: args', Some (VA l) :: finals' => copy_out (put s a (VA l)) args' finals'
+    | AVecRef a :: args', Some (VX v) :: finals' => copy_out (put s a (VX v)) args' finals'
     | _ :: args', _ :: finals' => copy_out s args' finals'
     | _, _ => s
     end.
@@ -493,6 +579,28 @@ Section Exec.
                match b with [] => Ok s | st' :: b' => do s1 <- exec st' s ;; block b' s1 end) body (put s x (VA l))
         | _ => Fault
         end
+    | SLetV x e => do v <- evalv s e ;; Ok (put s x (VX v))
+    | SLetTupV x es => do vs <- evalv_list s es ;; Ok (put s x (VTV vs))
+    | SUntupV xs src =>
+        match get s src with
+        | Some (VTV l) =>
+            (fix bindall (xs : list string) (l : list V128) (s : state) : res state :=
+               match xs, l with
+               | [], [] => Ok s
+               | x :: xs', v :: l' => bindall xs' l' (put s x (VX v))
+               | _, _ => Fault
+               end) xs l s
+        | _ => Fault
+        end
+    | SIfPrefix x a n body =>
+        match get s a with
+        | Some (VA l) =>
+            if (n <=? List.length l)%nat then
+              (fix block (b : list stmt) (s : state) : res state :=
+                 match b with [] => Ok s | st' :: b' => do s1 <- exec st' s ;; block b' s1 end) body (put s x (VA (firstn n l)))
+            else Ok s
+        | _ => Fault
+        end
     | SUnsupported _ => Fault
     end.
 
@@ -508,6 +616,7 @@ Section Exec.
     | RVarArr x => match get s x with Some (VA l) => Ok (Some (VA l)) | _ => Fault end
     | RVar x => match get s x with Some v => Ok (Some v) | None => Fault end
     | RCond c => do bq <- eval_cond p s c ;; Ok (Some (VN (if bq then 1 else 0)))
+    | RVec e => do v <- evalv s e ;; Ok (Some (VX v))
     | RPrefixOr a n =>
         do k <- eval p s n ;;
         match get s a with
